@@ -149,7 +149,7 @@ fn mutate(a: &PlainRule, kind: u8, x: u16, y: u16) -> (PlainRule, &'static str)
 {
     let mut b = a.clone();
     let pick = |n: usize, i: u16| crate::verif::gen::pick(i, n);
-    let how = match kind % 14
+    let how = match kind % 19
     {
         0 => { "identical" }
         1 =>
@@ -237,6 +237,54 @@ fn mutate(a: &PlainRule, kind: u8, x: u16, y: u16) -> (PlainRule, &'static str)
         {
             if b.targets.len() > 1 { b.targets.remove(pick(b.targets.len(), x)); }
             "target removed"
+        }
+        14 =>
+        {
+            if b.sources.len() > 1 { let t = b.sources.remove(0); b.sources[0] = format!("{}{}", t, b.sources[0]); b.sources = dedup_sorted(b.sources); }
+            "two sources concatenated into one"
+        }
+        15 | 16 =>
+        {
+            // the boundary between two neighbouring names moves by one character ("ab","c" -> "a","bc")
+            let list = if kind % 19 == 15 { &mut b.sources } else { &mut b.targets };
+            if list.len() > 1
+            {
+                let i = pick(list.len() - 1, x);
+                let mut l: Vec<char> = list[i].chars().collect();
+                if l.len() >= 2
+                {
+                    let ch = l.pop().unwrap();
+                    let left: String = l.into_iter().collect();
+                    let right = format!("{}{}", ch, list[i + 1]);
+                    if left != ":" && right != ":" && !left.contains('\t') && !right.starts_with('\t')
+                    {
+                        list[i] = left;
+                        list[i + 1] = right;
+                    }
+                }
+                let v = std::mem::take(list);
+                *list = dedup_sorted(v);
+            }
+            if kind % 19 == 15 { "boundary between two sources moved" } else { "boundary between two targets moved" }
+        }
+        17 =>
+        {
+            // one source split into two ("ab" -> "a","b")
+            let i = pick(b.sources.len(), x);
+            let chars: Vec<char> = b.sources[i].chars().collect();
+            if chars.len() >= 2
+            {
+                let k = 1 + pick(chars.len() - 1, y);
+                let l: String = chars[..k].iter().collect();
+                let r: String = chars[k..].iter().collect();
+                if l != ":" && r != ":"
+                {
+                    b.sources[i] = l;
+                    b.sources.push(r);
+                    b.sources = dedup_sorted(b.sources);
+                }
+            }
+            "source split into two"
         }
         _ =>
         {
